@@ -300,6 +300,8 @@ class Interp:
             return Sym("ext:" + r[1])
         if name in _BUILTIN_SYMS:
             return Sym("builtin:" + name)
+        if name in ("Ellipsis", "NotImplemented", "__debug__"):
+            return {"Ellipsis": Ellipsis, "NotImplemented": NotImplemented, "__debug__": True}[name]
         if name in _local_names(self.func):
             # a local that is read before any assignment on this path
             raise RaiseSignal("UnboundLocalError", node, payload=name)
@@ -1162,28 +1164,34 @@ class Interp:
         return "".join(parts)
 
     def ev_ListComp(self, e):
-        return self._comp(e, lambda sub: sub.eval(e.elt))
+        r = self._comp(e, lambda sub: sub.eval(e.elt))
+        return r
 
     def ev_GeneratorExp(self, e):
         return self._comp(e, lambda sub: sub.eval(e.elt))
 
     def ev_SetComp(self, e):
-        return set(_hashable(x) for x in self._comp(e, lambda sub: sub.eval(e.elt)))
+        r = self._comp(e, lambda sub: sub.eval(e.elt))
+        return r if isinstance(r, Unknown) else set(_hashable(x) for x in r)
 
     def ev_DictComp(self, e):
         pairs = self._comp(e, lambda sub: (sub.eval(e.key), sub.eval(e.value)))
-        return {_hashable(k): v for k, v in pairs}
+        return pairs if isinstance(pairs, Unknown) else {_hashable(k): v for k, v in pairs}
 
     def _comp(self, e, make):
         out = []
         saved = dict(self.env)
+        # a value built by iterating something unknown is unknown (no statement is executed per element)
+        first = self.eval(e.generators[0].iter)
+        if isinstance(first, Unknown) and not any(isinstance(n, (ast.Call, ast.NamedExpr)) for g in e.generators for c in g.ifs for n in ast.walk(c)):
+            return Unknown(f"comprehension over {first.tag}")
 
         def rec(i):
             if i == len(e.generators):
                 out.append(make(self))
                 return
             g = e.generators[i]
-            for x in self.iterate(self.eval(g.iter), g):
+            for x in self.iterate(first if i == 0 else self.eval(g.iter), g):
                 self.assign(g.target, x)
                 if all(self.truth(self.eval(c), c) for c in g.ifs):
                     rec(i + 1)
